@@ -5,519 +5,15 @@ package main
 
 import (
 	"context"
-	"encoding/binary"
-	"errors"
 	"fmt"
-	"math/big"
 	"math/rand"
 	"sort"
 	"strings"
 	"sync"
 	"time"
 
-	eth2client "github.com/attestantio/go-eth2-client"
-	"github.com/attestantio/go-eth2-client/api"
-	apiv1 "github.com/attestantio/go-eth2-client/api/v1"
-	"github.com/attestantio/go-eth2-client/spec"
-	"github.com/attestantio/go-eth2-client/spec/altair"
-	"github.com/attestantio/go-eth2-client/spec/bellatrix"
-	"github.com/attestantio/go-eth2-client/spec/capella"
-	"github.com/attestantio/go-eth2-client/spec/phase0"
-	nullmetrics "github.com/attestantio/vouch/services/metrics/null"
-	aggbest "github.com/attestantio/vouch/strategies/aggregateattestation/best"
-	aggfirst "github.com/attestantio/vouch/strategies/aggregateattestation/first"
-	adbest "github.com/attestantio/vouch/strategies/attestationdata/best"
-	adfirst "github.com/attestantio/vouch/strategies/attestationdata/first"
-	admaj "github.com/attestantio/vouch/strategies/attestationdata/majority"
-	hdrfirst "github.com/attestantio/vouch/strategies/beaconblockheader/first"
-	propbest "github.com/attestantio/vouch/strategies/beaconblockproposal/best"
-	propfirst "github.com/attestantio/vouch/strategies/beaconblockproposal/first"
-	rootfirst "github.com/attestantio/vouch/strategies/beaconblockroot/first"
-	rootlatest "github.com/attestantio/vouch/strategies/beaconblockroot/latest"
-	rootmaj "github.com/attestantio/vouch/strategies/beaconblockroot/majority"
-	sbbfirst "github.com/attestantio/vouch/strategies/signedbeaconblock/first"
-	scbest "github.com/attestantio/vouch/strategies/synccommitteecontribution/best"
-	scfirst "github.com/attestantio/vouch/strategies/synccommitteecontribution/first"
-	"github.com/holiman/uint256"
-	"github.com/prysmaticlabs/go-bitfield"
-	"github.com/rs/zerolog"
 	"verif/harness"
 )
-
-const (
-	timeout = 800 * time.Millisecond
-	soft    = timeout / 2
-	margin  = 130 * time.Millisecond
-	slack   = 600 * time.Millisecond
-	slot    = phase0.Slot(32*1000 + 5)
-	spe     = 32
-)
-
-// behaviour of one node in one case.
-type nb struct {
-	Kind string `json:"kind"`    // valid | invalid | error | silent | hang
-	Lat  string `json:"latency"` // fast | mid | late
-	Rank int    `json:"rank"`    // score rank (best/latest) or head slot (majority tie-break)
-	Val  int    `json:"value"`   // which value the node reports (majority)
-	Inv  int    `json:"invalid_kind,omitempty"`
-	Src  int    `json:"source_variant,omitempty"` // attestation data majority: same head, different source checkpoint
-}
-
-func (b nb) latency(r *rand.Rand) time.Duration {
-	switch b.Lat {
-	case "fast":
-		return time.Duration(5+r.Intn(60)) * time.Millisecond
-	case "mid":
-		return 600*time.Millisecond + time.Duration(r.Intn(30))*time.Millisecond
-	default:
-		return 1080 * time.Millisecond
-	}
-}
-
-// fnode is a scripted node implementing every provider interface used by the strategies.
-type fnode struct {
-	name    string
-	b       nb
-	lat     time.Duration
-	start   time.Time
-	mu      sync.Mutex
-	replied time.Duration // measured instant the reply left the fake (0 = none)
-	called  bool
-	strat   string
-}
-
-func (n *fnode) Address() string { return n.name }
-func (n *fnode) Name() string    { return n.name }
-func (n *fnode) IsActive() bool  { return true }
-func (n *fnode) IsSynced() bool  { return true }
-
-// wait plays the latency; returns an error for error/silent/hang kinds.
-func (n *fnode) wait(ctx context.Context) error {
-	n.mu.Lock()
-	n.called = true
-	n.mu.Unlock()
-	switch n.b.Kind {
-	case "silent":
-		<-ctx.Done()
-		return ctx.Err()
-	case "hang":
-		time.Sleep(timeout + 500*time.Millisecond) // ignores the context
-		return errors.New("gave up")
-	}
-	select {
-	case <-time.After(n.lat):
-	case <-ctx.Done():
-		return ctx.Err()
-	}
-	n.mu.Lock()
-	n.replied = time.Since(n.start)
-	n.mu.Unlock()
-	if n.b.Kind == "error" {
-		return errors.New("scripted node error")
-	}
-	return nil
-}
-
-func keyRoot(val, rank int) phase0.Root {
-	var r phase0.Root
-	binary.BigEndian.PutUint32(r[0:4], uint32(val)+1)
-	binary.BigEndian.PutUint32(r[4:8], uint32(rank)+1)
-	r[31] = 0x5c
-	return r
-}
-
-func decodeKey(r phase0.Root) string {
-	return fmt.Sprintf("v%d/r%d", int(binary.BigEndian.Uint32(r[0:4]))-1, int(binary.BigEndian.Uint32(r[4:8]))-1)
-}
-
-func (n *fnode) key() string {
-	if n.b.Src > 0 {
-		return fmt.Sprintf("v%d/r%d/s%d", n.b.Val, n.b.Rank, n.b.Src)
-	}
-	return fmt.Sprintf("v%d/r%d", n.b.Val, n.b.Rank)
-}
-
-func (n *fnode) AttestationData(ctx context.Context, opts *api.AttestationDataOpts) (*api.Response[*phase0.AttestationData], error) {
-	if err := n.wait(ctx); err != nil {
-		return nil, err
-	}
-	d := &phase0.AttestationData{Slot: opts.Slot, Index: opts.CommitteeIndex, BeaconBlockRoot: keyRoot(n.b.Val, n.b.Rank),
-		Source: &phase0.Checkpoint{Epoch: phase0.Epoch(n.b.Rank)}, Target: &phase0.Checkpoint{Epoch: phase0.Epoch(uint64(opts.Slot) / spe)}}
-	if n.b.Src > 0 {
-		d.Source.Epoch = phase0.Epoch(100 + n.b.Src)
-	}
-	if n.b.Kind == "invalid" {
-		switch n.b.Inv % 3 {
-		case 0:
-			d.Target.Epoch++ // target epoch is not the slot's epoch
-			d.Source.Epoch = d.Target.Epoch
-		case 1:
-			d.Target.Epoch--
-		default:
-			return &api.Response[*phase0.AttestationData]{Data: nil, Metadata: map[string]any{}}, nil // missing data
-		}
-	}
-	return &api.Response[*phase0.AttestationData]{Data: d, Metadata: map[string]any{}}, nil
-}
-
-func (n *fnode) AggregateAttestation(ctx context.Context, _ *api.AggregateAttestationOpts) (*api.Response[*phase0.Attestation], error) {
-	if err := n.wait(ctx); err != nil {
-		return nil, err
-	}
-	if n.b.Kind == "invalid" {
-		return &api.Response[*phase0.Attestation]{Data: nil, Metadata: map[string]any{}}, nil
-	}
-	bits := bitfield.NewBitlist(128)
-	for i := 0; i < n.b.Rank+1; i++ {
-		bits.SetBitAt(uint64(i), true)
-	}
-	a := &phase0.Attestation{AggregationBits: bits, Data: &phase0.AttestationData{Slot: slot, BeaconBlockRoot: keyRoot(n.b.Val, n.b.Rank), Source: &phase0.Checkpoint{}, Target: &phase0.Checkpoint{}}}
-	return &api.Response[*phase0.Attestation]{Data: a, Metadata: map[string]any{}}, nil
-}
-
-func (n *fnode) SyncCommitteeContribution(ctx context.Context, _ *api.SyncCommitteeContributionOpts) (*api.Response[*altair.SyncCommitteeContribution], error) {
-	if err := n.wait(ctx); err != nil {
-		return nil, err
-	}
-	if n.b.Kind == "invalid" {
-		return &api.Response[*altair.SyncCommitteeContribution]{Data: nil, Metadata: map[string]any{}}, nil
-	}
-	bits := bitfield.NewBitvector128()
-	for i := 0; i < n.b.Rank+1; i++ {
-		bits.SetBitAt(uint64(i), true)
-	}
-	c := &altair.SyncCommitteeContribution{Slot: slot, BeaconBlockRoot: keyRoot(n.b.Val, n.b.Rank), AggregationBits: bits}
-	return &api.Response[*altair.SyncCommitteeContribution]{Data: c, Metadata: map[string]any{}}, nil
-}
-
-func (n *fnode) Proposal(ctx context.Context, opts *api.ProposalOpts) (*api.Response[*api.VersionedProposal], error) {
-	if err := n.wait(ctx); err != nil {
-		return nil, err
-	}
-	fr := bellatrix.ExecutionAddress{1, 2, 3}
-	p := &api.VersionedProposal{Version: spec.DataVersionCapella, ConsensusValue: big.NewInt(int64(n.b.Rank) + 1), ExecutionValue: big.NewInt(0),
-		Capella: &capella.BeaconBlock{Slot: opts.Slot, ParentRoot: keyRoot(n.b.Val, n.b.Rank), Body: &capella.BeaconBlockBody{ETH1Data: &phase0.ETH1Data{},
-			SyncAggregate:    &altair.SyncAggregate{SyncCommitteeBits: bitfield.NewBitvector512()},
-			ExecutionPayload: &capella.ExecutionPayload{FeeRecipient: fr}}}}
-	if n.b.Kind == "invalid" && strings.HasSuffix(n.strat, "best") {
-		if n.b.Inv%2 == 0 {
-			p.Capella.Body.ExecutionPayload.FeeRecipient = bellatrix.ExecutionAddress{} // zero fee recipient
-		} else {
-			p.Blinded = true // blinded flag without a blinded block: missing data
-		}
-		p.ConsensusValue = big.NewInt(1_000_000) // tempting
-	}
-	return &api.Response[*api.VersionedProposal]{Data: p, Metadata: map[string]any{}}, nil
-}
-
-func (n *fnode) BeaconBlockRoot(ctx context.Context, _ *api.BeaconBlockRootOpts) (*api.Response[*phase0.Root], error) {
-	if err := n.wait(ctx); err != nil {
-		return nil, err
-	}
-	r := keyRoot(n.b.Val, n.b.Rank)
-	return &api.Response[*phase0.Root]{Data: &r, Metadata: map[string]any{}}, nil
-}
-
-func (n *fnode) BeaconBlockHeader(ctx context.Context, _ *api.BeaconBlockHeaderOpts) (*api.Response[*apiv1.BeaconBlockHeader], error) {
-	if err := n.wait(ctx); err != nil {
-		if n.b.Kind == "error" && n.b.Inv%2 == 1 {
-			return nil, &api.Error{Method: "GET", StatusCode: 404}
-		}
-		return nil, err
-	}
-	h := &apiv1.BeaconBlockHeader{Root: keyRoot(n.b.Val, n.b.Rank), Header: &phase0.SignedBeaconBlockHeader{Message: &phase0.BeaconBlockHeader{Slot: slot}}}
-	return &api.Response[*apiv1.BeaconBlockHeader]{Data: h, Metadata: map[string]any{}}, nil
-}
-
-func (n *fnode) SignedBeaconBlock(ctx context.Context, _ *api.SignedBeaconBlockOpts) (*api.Response[*spec.VersionedSignedBeaconBlock], error) {
-	if err := n.wait(ctx); err != nil {
-		if n.b.Kind == "error" && n.b.Inv%2 == 1 {
-			return nil, &api.Error{Method: "GET", StatusCode: 503}
-		}
-		return nil, err
-	}
-	b := &spec.VersionedSignedBeaconBlock{Version: spec.DataVersionPhase0, Phase0: &phase0.SignedBeaconBlock{Message: &phase0.BeaconBlock{Slot: slot, ParentRoot: keyRoot(n.b.Val, n.b.Rank), Body: &phase0.BeaconBlockBody{ETH1Data: &phase0.ETH1Data{}}}}}
-	return &api.Response[*spec.VersionedSignedBeaconBlock]{Data: b, Metadata: map[string]any{}}, nil
-}
-
-// slotCache maps a key root to a head slot: slot-1-(20-rank) so that a higher rank is a later head.
-type slotCache struct{ mode string }
-
-func (c slotCache) BlockRootToSlot(_ context.Context, root phase0.Root) (phase0.Slot, error) {
-	rank := int(binary.BigEndian.Uint32(root[4:8])) - 1
-	if rank < 0 {
-		return 0, errors.New("unknown root")
-	}
-	if c.mode == "const" {
-		return slot - 1, nil
-	}
-	return slot - 30 + phase0.Slot(rank), nil
-}
-
-type strategy struct {
-	Name        string
-	Class       string // best | majority | first
-	Invalid     bool   // has validity rules, i.e. "invalid" node behaviour applies
-	Threshold   bool
-	SoftDecides bool // decides at the soft timeout when it has replies
-	build       func(nodes []*fnode, threshold int) (func(ctx context.Context) (string, error), error)
-}
-
-var _ = uint256.NewInt
-
-func strategies() []strategy {
-	mon := nullmetrics.New()
-	clock := harness.NewVClock(12*time.Second, spe)
-	var out []strategy
-	// attestation data
-	adProviders := func(nodes []*fnode) map[string]eth2client.AttestationDataProvider {
-		m := map[string]eth2client.AttestationDataProvider{}
-		for _, n := range nodes {
-			m[n.name] = n
-		}
-		return m
-	}
-	adCall := func(f func(context.Context, *api.AttestationDataOpts) (*api.Response[*phase0.AttestationData], error)) func(context.Context) (string, error) {
-		return func(ctx context.Context) (string, error) {
-			r, err := f(ctx, &api.AttestationDataOpts{Slot: slot, CommitteeIndex: 3})
-			if err != nil {
-				return "", err
-			}
-			if r == nil || r.Data == nil {
-				return "<nil>", nil
-			}
-			if uint64(r.Data.Target.Epoch) != uint64(slot)/spe {
-				return "<invalid:target>", nil
-			}
-			if r.Data.Source.Epoch > 100 {
-				return fmt.Sprintf("%s/s%d", decodeKey(r.Data.BeaconBlockRoot), r.Data.Source.Epoch-100), nil
-			}
-			return decodeKey(r.Data.BeaconBlockRoot), nil
-		}
-	}
-	out = append(out, strategy{Name: "attestationdata/best", Class: "best", Invalid: true, SoftDecides: true, build: func(nodes []*fnode, _ int) (func(context.Context) (string, error), error) {
-		s, err := adbest.New(context.Background(), adbest.WithLogLevel(zerolog.Disabled), adbest.WithClientMonitor(mon), adbest.WithProcessConcurrency(6), adbest.WithAttestationDataProviders(adProviders(nodes)),
-			adbest.WithTimeout(timeout), adbest.WithChainTime(clock), adbest.WithBlockRootToSlotCache(slotCache{"const"}))
-		if err != nil {
-			return nil, err
-		}
-		return adCall(s.AttestationData), nil
-	}})
-	out = append(out, strategy{Name: "attestationdata/majority", Class: "majority", Invalid: true, Threshold: true, build: func(nodes []*fnode, th int) (func(context.Context) (string, error), error) {
-		s, err := admaj.New(context.Background(), admaj.WithLogLevel(zerolog.Disabled), admaj.WithClientMonitor(mon), admaj.WithProcessConcurrency(6), admaj.WithAttestationDataProviders(adProviders(nodes)),
-			admaj.WithTimeout(timeout), admaj.WithChainTime(clock), admaj.WithBlockRootToSlotCache(slotCache{}), admaj.WithThreshold(th))
-		if err != nil {
-			return nil, err
-		}
-		return adCall(s.AttestationData), nil
-	}})
-	out = append(out, strategy{Name: "attestationdata/first", Class: "first", build: func(nodes []*fnode, _ int) (func(context.Context) (string, error), error) {
-		s, err := adfirst.New(context.Background(), adfirst.WithLogLevel(zerolog.Disabled), adfirst.WithClientMonitor(mon), adfirst.WithAttestationDataProviders(adProviders(nodes)), adfirst.WithTimeout(timeout))
-		if err != nil {
-			return nil, err
-		}
-		return adCall(s.AttestationData), nil
-	}})
-	// aggregate attestation
-	agProviders := func(nodes []*fnode) map[string]eth2client.AggregateAttestationProvider {
-		m := map[string]eth2client.AggregateAttestationProvider{}
-		for _, n := range nodes {
-			m[n.name] = n
-		}
-		return m
-	}
-	agCall := func(f func(context.Context, *api.AggregateAttestationOpts) (*api.Response[*phase0.Attestation], error)) func(context.Context) (string, error) {
-		return func(ctx context.Context) (string, error) {
-			r, err := f(ctx, &api.AggregateAttestationOpts{Slot: slot})
-			if err != nil {
-				return "", err
-			}
-			if r == nil || r.Data == nil {
-				return "<nil>", nil
-			}
-			return decodeKey(r.Data.Data.BeaconBlockRoot), nil
-		}
-	}
-	out = append(out, strategy{Name: "aggregateattestation/best", Class: "best", Invalid: true, SoftDecides: true, build: func(nodes []*fnode, _ int) (func(context.Context) (string, error), error) {
-		s, err := aggbest.New(context.Background(), aggbest.WithLogLevel(zerolog.Disabled), aggbest.WithClientMonitor(mon), aggbest.WithProcessConcurrency(6), aggbest.WithAggregateAttestationProviders(agProviders(nodes)), aggbest.WithTimeout(timeout))
-		if err != nil {
-			return nil, err
-		}
-		return agCall(s.AggregateAttestation), nil
-	}})
-	out = append(out, strategy{Name: "aggregateattestation/first", Class: "first", build: func(nodes []*fnode, _ int) (func(context.Context) (string, error), error) {
-		s, err := aggfirst.New(context.Background(), aggfirst.WithLogLevel(zerolog.Disabled), aggfirst.WithClientMonitor(mon), aggfirst.WithAggregateAttestationProviders(agProviders(nodes)), aggfirst.WithTimeout(timeout))
-		if err != nil {
-			return nil, err
-		}
-		return agCall(s.AggregateAttestation), nil
-	}})
-	// sync committee contribution
-	scProviders := func(nodes []*fnode) map[string]eth2client.SyncCommitteeContributionProvider {
-		m := map[string]eth2client.SyncCommitteeContributionProvider{}
-		for _, n := range nodes {
-			m[n.name] = n
-		}
-		return m
-	}
-	scCall := func(f func(context.Context, *api.SyncCommitteeContributionOpts) (*api.Response[*altair.SyncCommitteeContribution], error)) func(context.Context) (string, error) {
-		return func(ctx context.Context) (string, error) {
-			r, err := f(ctx, &api.SyncCommitteeContributionOpts{Slot: slot, SubcommitteeIndex: 1, BeaconBlockRoot: phase0.Root{1}})
-			if err != nil {
-				return "", err
-			}
-			if r == nil || r.Data == nil {
-				return "<nil>", nil
-			}
-			return decodeKey(r.Data.BeaconBlockRoot), nil
-		}
-	}
-	out = append(out, strategy{Name: "synccommitteecontribution/best", Class: "best", Invalid: true, SoftDecides: true, build: func(nodes []*fnode, _ int) (func(context.Context) (string, error), error) {
-		s, err := scbest.New(context.Background(), scbest.WithLogLevel(zerolog.Disabled), scbest.WithClientMonitor(mon), scbest.WithProcessConcurrency(6), scbest.WithSyncCommitteeContributionProviders(scProviders(nodes)), scbest.WithTimeout(timeout))
-		if err != nil {
-			return nil, err
-		}
-		return scCall(s.SyncCommitteeContribution), nil
-	}})
-	out = append(out, strategy{Name: "synccommitteecontribution/first", Class: "first", build: func(nodes []*fnode, _ int) (func(context.Context) (string, error), error) {
-		s, err := scfirst.New(context.Background(), scfirst.WithLogLevel(zerolog.Disabled), scfirst.WithClientMonitor(mon), scfirst.WithSyncCommitteeContributionProviders(scProviders(nodes)), scfirst.WithTimeout(timeout))
-		if err != nil {
-			return nil, err
-		}
-		return scCall(s.SyncCommitteeContribution), nil
-	}})
-	// block proposal
-	prProviders := func(nodes []*fnode) map[string]eth2client.ProposalProvider {
-		m := map[string]eth2client.ProposalProvider{}
-		for _, n := range nodes {
-			m[n.name] = n
-		}
-		return m
-	}
-	prCall := func(f func(context.Context, *api.ProposalOpts) (*api.Response[*api.VersionedProposal], error)) func(context.Context) (string, error) {
-		return func(ctx context.Context) (string, error) {
-			r, err := f(ctx, &api.ProposalOpts{Slot: slot})
-			if err != nil {
-				return "", err
-			}
-			if r == nil || r.Data == nil {
-				return "<nil>", nil
-			}
-			fr, ferr := r.Data.FeeRecipient()
-			if ferr != nil {
-				return "<invalid:missing-data>", nil
-			}
-			if fr.IsZero() {
-				return "<invalid:zero-fee-recipient>", nil
-			}
-			return decodeKey(r.Data.Capella.ParentRoot), nil
-		}
-	}
-	out = append(out, strategy{Name: "beaconblockproposal/best", Class: "best", Invalid: true, SoftDecides: true, build: func(nodes []*fnode, _ int) (func(context.Context) (string, error), error) {
-		specP := harness.NewSpec(spe, map[string]any{"TIMELY_SOURCE_WEIGHT": uint64(14), "TIMELY_TARGET_WEIGHT": uint64(26), "TIMELY_HEAD_WEIGHT": uint64(14),
-			"SYNC_REWARD_WEIGHT": uint64(2), "PROPOSER_WEIGHT": uint64(8), "WEIGHT_DENOMINATOR": uint64(64)})
-		s, err := propbest.New(context.Background(), propbest.WithLogLevel(zerolog.Disabled), propbest.WithTimeout(timeout), propbest.WithClientMonitor(mon), propbest.WithProcessConcurrency(6),
-			propbest.WithEventsProvider(harness.NewCapEvents()), propbest.WithChainTimeService(clock), propbest.WithSpecProvider(specP), propbest.WithProposalProviders(prProviders(nodes)),
-			propbest.WithSignedBeaconBlockProvider(nodes[0]), propbest.WithBlockRootToSlotCache(slotCache{"const"}))
-		if err != nil {
-			return nil, err
-		}
-		return prCall(s.Proposal), nil
-	}})
-	out = append(out, strategy{Name: "beaconblockproposal/first", Class: "first", build: func(nodes []*fnode, _ int) (func(context.Context) (string, error), error) {
-		s, err := propfirst.New(context.Background(), propfirst.WithLogLevel(zerolog.Disabled), propfirst.WithClientMonitor(mon), propfirst.WithProposalProviders(prProviders(nodes)), propfirst.WithTimeout(timeout))
-		if err != nil {
-			return nil, err
-		}
-		return prCall(s.Proposal), nil
-	}})
-	// beacon block root
-	brProviders := func(nodes []*fnode) map[string]eth2client.BeaconBlockRootProvider {
-		m := map[string]eth2client.BeaconBlockRootProvider{}
-		for _, n := range nodes {
-			m[n.name] = n
-		}
-		return m
-	}
-	brCall := func(f func(context.Context, *api.BeaconBlockRootOpts) (*api.Response[*phase0.Root], error)) func(context.Context) (string, error) {
-		return func(ctx context.Context) (string, error) {
-			r, err := f(ctx, &api.BeaconBlockRootOpts{Block: "head"})
-			if err != nil {
-				return "", err
-			}
-			if r == nil || r.Data == nil {
-				return "<nil>", nil
-			}
-			return decodeKey(*r.Data), nil
-		}
-	}
-	out = append(out, strategy{Name: "beaconblockroot/first", Class: "first", build: func(nodes []*fnode, _ int) (func(context.Context) (string, error), error) {
-		s, err := rootfirst.New(context.Background(), rootfirst.WithLogLevel(zerolog.Disabled), rootfirst.WithClientMonitor(mon), rootfirst.WithBeaconBlockRootProviders(brProviders(nodes)), rootfirst.WithTimeout(timeout))
-		if err != nil {
-			return nil, err
-		}
-		return brCall(s.BeaconBlockRoot), nil
-	}})
-	out = append(out, strategy{Name: "beaconblockroot/latest", Class: "best", SoftDecides: true, build: func(nodes []*fnode, _ int) (func(context.Context) (string, error), error) {
-		s, err := rootlatest.New(context.Background(), rootlatest.WithLogLevel(zerolog.Disabled), rootlatest.WithClientMonitor(mon), rootlatest.WithProcessConcurrency(6), rootlatest.WithBeaconBlockRootProviders(brProviders(nodes)),
-			rootlatest.WithTimeout(timeout), rootlatest.WithBlockRootToSlotCache(slotCache{}))
-		if err != nil {
-			return nil, err
-		}
-		return brCall(s.BeaconBlockRoot), nil
-	}})
-	out = append(out, strategy{Name: "beaconblockroot/majority", Class: "majority", SoftDecides: true, build: func(nodes []*fnode, _ int) (func(context.Context) (string, error), error) {
-		s, err := rootmaj.New(context.Background(), rootmaj.WithLogLevel(zerolog.Disabled), rootmaj.WithClientMonitor(mon), rootmaj.WithProcessConcurrency(6), rootmaj.WithBeaconBlockRootProviders(brProviders(nodes)),
-			rootmaj.WithTimeout(timeout), rootmaj.WithBlockRootToSlotCache(slotCache{}))
-		if err != nil {
-			return nil, err
-		}
-		return brCall(s.BeaconBlockRoot), nil
-	}})
-	// header, signed block
-	out = append(out, strategy{Name: "beaconblockheader/first", Class: "first", build: func(nodes []*fnode, _ int) (func(context.Context) (string, error), error) {
-		m := map[string]eth2client.BeaconBlockHeadersProvider{}
-		for _, n := range nodes {
-			m[n.name] = n
-		}
-		s, err := hdrfirst.New(context.Background(), hdrfirst.WithLogLevel(zerolog.Disabled), hdrfirst.WithClientMonitor(mon), hdrfirst.WithBeaconBlockHeadersProviders(m), hdrfirst.WithTimeout(timeout))
-		if err != nil {
-			return nil, err
-		}
-		return func(ctx context.Context) (string, error) {
-			r, err := s.BeaconBlockHeader(ctx, &api.BeaconBlockHeaderOpts{Block: "head"})
-			if err != nil {
-				return "", err
-			}
-			if r == nil || r.Data == nil {
-				return "<nil>", nil
-			}
-			return decodeKey(r.Data.Root), nil
-		}, nil
-	}})
-	out = append(out, strategy{Name: "signedbeaconblock/first", Class: "first", build: func(nodes []*fnode, _ int) (func(context.Context) (string, error), error) {
-		m := map[string]eth2client.SignedBeaconBlockProvider{}
-		for _, n := range nodes {
-			m[n.name] = n
-		}
-		s, err := sbbfirst.New(context.Background(), sbbfirst.WithLogLevel(zerolog.Disabled), sbbfirst.WithClientMonitor(mon), sbbfirst.WithSignedBeaconBlockProviders(m), sbbfirst.WithTimeout(timeout))
-		if err != nil {
-			return nil, err
-		}
-		return func(ctx context.Context) (string, error) {
-			r, err := s.SignedBeaconBlock(ctx, &api.SignedBeaconBlockOpts{Block: "head"})
-			if err != nil {
-				return "", err
-			}
-			if r == nil || r.Data == nil {
-				return "<nil>", nil
-			}
-			pr, _ := r.Data.ParentRoot()
-			return decodeKey(pr), nil
-		}, nil
-	}})
-	return out
-}
 
 type reply struct {
 	node  int
